@@ -89,6 +89,48 @@ type Factory struct {
 	Acceptors []*Acceptor
 	Connected []*Transport
 	NewT      func() *Transport
+	// gates: Listen for a gated URL parks (after "binding", before returning the acceptor) until OpenGate
+	gates  map[string]chan struct{}
+	parked map[string]bool
+}
+
+// Gate makes the next Listen for url park until OpenGate(url).
+func (f *Factory) Gate(url string) {
+	f.mu.Lock()
+	defer f.mu.Unlock()
+	if f.gates == nil {
+		f.gates, f.parked = map[string]chan struct{}{}, map[string]bool{}
+	}
+	f.gates[url] = make(chan struct{})
+}
+
+// OpenGate lets a parked Listen continue; it reports whether a gate existed.
+func (f *Factory) OpenGate(url string) bool {
+	f.mu.Lock()
+	g, ok := f.gates[url]
+	parked := f.parked[url]
+	delete(f.gates, url)
+	delete(f.parked, url)
+	f.mu.Unlock()
+	if !ok {
+		return false
+	}
+	if parked && f.Tracker != nil {
+		f.Tracker.Begin()
+	}
+	close(g)
+	return true
+}
+
+// GatedURLs lists the URLs that still have a gate.
+func (f *Factory) GatedURLs() []string {
+	f.mu.Lock()
+	defer f.mu.Unlock()
+	var out []string
+	for u := range f.gates {
+		out = append(out, u)
+	}
+	return out
 }
 
 func (f *Factory) Schemes() transport.Schemes { return transport.Schemes{"mock"} }
@@ -106,7 +148,19 @@ func (f *Factory) Listen(options *transport.Options) (transport.Acceptor, error)
 	a.cond = sync.NewCond(&a.mu)
 	f.mu.Lock()
 	f.Acceptors = append(f.Acceptors, a)
+	key := options.Address.Scheme + "://" + options.Address.Host
+	g, gated := f.gates[key]
+	if gated {
+		f.parked[key] = true
+	}
 	f.mu.Unlock()
+	if gated {
+		// the socket is bound; returning it to the listener takes a while
+		if f.Tracker != nil {
+			f.Tracker.End()
+		}
+		<-g
+	}
 	return a, nil
 }
 
